@@ -221,7 +221,7 @@ static void vf_commit(const vf_rec_t *r)
         }
         if (i < VF_MAXKNOWN) vf->known[i].count++;
     } else {
-        if (vf->nviol < VF_MAXV) vf->viol[vf->nviol++] = *r;
+        if (vf->nviol < VF_MAXV) { int k = vf->nviol; vf->viol[k] = *r; __atomic_store_n(&vf->nviol, k + 1, __ATOMIC_RELEASE); }   /* publish after the copy: the parent prints without the lock */
         if (vf->nviol >= VF_MAXV) vf->stop = 1;
     }
     vf_unlock();
